@@ -20,3 +20,10 @@ _compose_part("C07", "C07compose",
      ["composed: the searching player is a stub (its answer is an input of the schedule); Friendly's check-engine verdicts are inputs; clocks through the seams of harness/rewrite/playtak_friendly.json, playtak_taktician.json, playtak_bot.json",
       "composed: thinkers take moveLock in the order they were started (they are parked on the mutex one event apart) and everything in GetMove that does not wait happens at once (Tak.Compose.settle); other lock orders are covered by the theorems only",
       "composed: the `level` chat command (replaces f.ai in mid-game), the opening-book wrapper and Friendly.GameOver's survey Tell are outside the composed model; no Tell lines are generated"])
+
+# Work package "botcompose2": Friendly's check engine threaded (Impl/BotCheck.lean); generator C07check runs the real waitUndo with the REAL f.check.
+_compose_part("C07", "C07check",
+     "CHECK ENGINE (sampled): a real Friendly whose game was started through the real NewGame (so f.check is the depth-3 EvaluateWinner engine NewGame builds), the record after a random playout on a 3x3 / 4x4 board, "
+     "then the real waitUndo(p) with the real engine, after every ply from the second on; compared with Tak.Compose.waitUndoK on Tak.Compose.minimaxChecker: whether the first analysis reports a win in one (value >= WinThreshold at depth <= 1), "
+     "how often the engine is consulted, and the decision when there is no win in one",
+     ["check engine: with a win in one the decision depends on the class of a depth-3 value searched with slide reduction (applied in zwSearch only) and history-ordered moves, which can depend on the move order the model does not mirror - that decision is not compared"])
